@@ -312,13 +312,14 @@ def bounded(tier, seed):
     run = H.Run('C20', tier, seed, budget_s=80 if tier == 'quick' else 500)
     rng = np.random.default_rng(seed + 11)
 
-    def check(field, tag):
+    def check(field, tag, wide=False):
+        given = np.asarray(field, 'd' if wide else 'f')       # wide: the caller hands pack2d a float64 array (it packs the float32 values)
         field = np.asarray(field, 'f')
 
         def t():
-            src = field.copy()
-            cvar, prec, nexp, var1, ksum = pack2d(field)
-            if not np.array_equal(field, src):
+            src = given.copy()
+            cvar, prec, nexp, var1, ksum = pack2d(given)
+            if not np.array_equal(given, src):
                 return 'input modified'
             by = np.frombuffer(np.ascontiguousarray(cvar).tobytes(), 'u1').reshape(field.shape)
             q = 2.0 ** (int(nexp) - 7)
@@ -363,6 +364,16 @@ def bounded(tier, seed):
             check(np.array([[3, 2, 1, 0], [3, 2, 1, 0]], 'f') * step * sgn, 'ramp of differences exactly 2**k along the rows')
             check(np.array([[3, 3], [2, 2], [1, 1], [0, 0]], 'f') * step * sgn, 'ramp of differences exactly 2**k down the first column')
     check(np.array([[0, 1, 0, 1, 1, 0], [1, 0, 0, 1, 0, 1]], 'f'), '0/1 mask')
+    # float64 input: the values that are packed are the float32 ones; differences a hair below 2**k in float64 are exactly 2**k in float32
+    for k in (range(-60, 61, 8) if tier == 'quick' else range(-100, 101)):
+        for eps in (2.0 ** -40, 2.0 ** -30, 2.0 ** -26):
+            d = 2.0 ** k * (1 - eps)
+            for sgn in (1, -1):
+                check(np.array([[0, 1, 2, 3, 4], [0, 1, 2, 3, 4]], 'd') * d * sgn, 'float64 input, consecutive differences just below 2**k (equal to 2**k in float32)', wide=True)
+                check(np.array([[0, 0], [1, 1], [2, 2], [3, 3]], 'd') * d * sgn, 'float64 input, first-column differences just below 2**k', wide=True)
+    for shp in shapes[:3]:
+        for mag in (1e-8, 1., 1e4):
+            check((rng.random(shp) - 0.5) * mag, 'float64 input, random field', wide=True)
     # adversarial: negative difference close to -128 steps after a positive rounding error (from the z3 counter-model of the loop invariant)
     for a, b in ((0.51, -127.39), (0.49, -127.45), (0.3, -127.0), (0.51, -126.0)):
         check(np.array([[0, a, b], [0, 0, 0]]), 'negative difference of about -127.9 steps after a rounded-up cell')
